@@ -1,0 +1,41 @@
+//go:build verif
+
+package softspoken
+
+import (
+	"github.com/bronlabs/bron-crypto/pkg/transcripts"
+)
+
+// This file is compiled only with the build tag `verif`. It adds read-only accessors used by the
+// external verification harness (/verif); it changes no behaviour and no existing declaration.
+
+// VerifExpand returns the seed expansion (PRG output) the receiver computes for base-OT seed `message`
+// of index idx and branch `choice`. It does not touch the participant's state.
+func (r *Receiver) VerifExpand(outputLen, idx int, message []byte, choice int) ([]byte, error) {
+	return r.expand(outputLen, idx, message, choice)
+}
+
+// VerifExpand returns the seed expansion (PRG output) the sender computes for base-OT seed `message`
+// of index idx and choice bit `choice`. It does not touch the participant's state.
+func (s *Sender) VerifExpand(outputLen, idx int, message []byte, choice int) ([]byte, error) {
+	return s.expand(outputLen, idx, message, choice)
+}
+
+// VerifChallenge returns the Fiat-Shamir challenge chi (m elements) the receiver derives for the masks u
+// when it is in the state it has at the beginning of Round1. It works on a clone of the transcript.
+func (r *Receiver) VerifChallenge(u *[Kappa][]byte, m int) (Challenge, error) {
+	return verifChallenge(r.ctx.Transcript().Clone(), u, m)
+}
+
+// VerifChallenge returns the Fiat-Shamir challenge chi (m elements) the sender derives for the masks u
+// when it is in the state it has at the beginning of Round2. It works on a clone of the transcript.
+func (s *Sender) VerifChallenge(u *[Kappa][]byte, m int) (Challenge, error) {
+	return verifChallenge(s.ctx.Transcript().Clone(), u, m)
+}
+
+func verifChallenge(tr transcripts.Transcript, u *[Kappa][]byte, m int) (Challenge, error) {
+	for i := range Kappa {
+		tr.AppendBytes(expansionMaskLabel, u[i])
+	}
+	return generateChallenge(tr, m)
+}
